@@ -5,7 +5,6 @@ import (
 	"encoding/json"
 	"fmt"
 	"os"
-	"strconv"
 	"testing"
 	"time"
 )
@@ -34,29 +33,6 @@ func TestHarness(t *testing.T) {
 		fmt.Fprintln(os.Stderr, "HARNESS-ERROR: unknown VERIF_OP", op)
 		os.Exit(2)
 	}
-}
-
-var extraOps = map[string]func() error{}
-
-func envInt(name string, def int64) int64 {
-	if v := os.Getenv(name); v != "" {
-		if n, err := strconv.ParseInt(v, 10, 64); err == nil {
-			return n
-		}
-	}
-	return def
-}
-
-// Result is what one replay process reports.
-type Result struct {
-	Behaviours int            `json:"behaviours"`
-	Steps      int            `json:"steps"`
-	Queries    int            `json:"queries"`
-	Stats      map[string]int `json:"stats"`
-	DevUsed    map[string]int `json:"dev_used"`
-	Mismatches []Mismatch     `json:"mismatches"`
-	Samples    []string       `json:"samples"`
-	WallS      float64        `json:"wall_s"`
 }
 
 func opReplay() error {
